@@ -189,6 +189,52 @@ def _bad_ground_second_surface_not_symmetric():
     return _stage_runner(build)
 
 
+def _degenerate_coplanar_tail_alpha0():
+    """Admissible-looking but singular geometry: a flat wing and a coplanar tail whose panel is centred on a wing
+    station, at alpha = 0 - the wing's trailing legs run exactly through the tail's collocation point (0/0 in the
+    vortex kernel). The unchanged tree fails loudly (ValueError from the LU factorisation). What must never happen
+    is a normal return with non-finite numbers."""
+    import openmdao.api as om
+    from openaerostruct.geometry.utils import generate_mesh
+    from openaerostruct.geometry.geometry_group import Geometry
+    from openaerostruct.aerodynamics.aero_groups import AeroPoint
+
+    info = {"stage": "build", "exc": None, "msg": None, "warnings": [], "produced_numbers": False, "finite": None}
+    try:
+        mesh1 = generate_mesh({"num_y": 7, "num_x": 2, "wing_type": "rect", "symmetry": True, "span": 10.0, "root_chord": 1.0})
+        mesh2 = generate_mesh({"num_y": 3, "num_x": 2, "wing_type": "rect", "symmetry": True, "span": 20.0 / 3.0,
+                               "root_chord": 0.5, "offset": np.array([5.0, 0.0, 0.0])})
+        wing = zoo._aero_surface("wing", mesh1, True, None, viscous=False)
+        tail = zoo._aero_surface("tail", mesh2, True, None, viscous=False)
+        prob = om.Problem(reports=False)
+        ivc = om.IndepVarComp()
+        for n, v, u in (("v", 50.0, "m/s"), ("alpha", 0.0, "deg"), ("Mach_number", 0.2, None), ("re", 1e6, "1/m"),
+                        ("rho", 1.2, "kg/m**3"), ("cg", np.zeros(3), "m")):
+            ivc.add_output(n, val=v, units=u)
+        prob.model.add_subsystem("prob_vars", ivc, promotes=["*"])
+        for s in (wing, tail):
+            prob.model.add_subsystem(s["name"], Geometry(surface=s))
+        prob.model.add_subsystem("aero_point_0", AeroPoint(surfaces=[wing, tail]),
+                                 promotes_inputs=["v", "alpha", "Mach_number", "re", "rho", "cg"])
+        for s in (wing, tail):
+            n = s["name"]
+            prob.model.connect(n + ".mesh", "aero_point_0." + n + ".def_mesh")
+            prob.model.connect(n + ".mesh", "aero_point_0.aero_states." + n + "_def_mesh")
+            prob.model.connect(n + ".t_over_c", "aero_point_0." + n + "_perf.t_over_c")
+        info["stage"] = "setup"
+        with _quiet():
+            prob.setup()
+            info["stage"] = "run_model"
+            prob.run_model()
+        info["stage"] = "completed"
+        info["produced_numbers"] = True
+        info["finite"] = obs.all_finite(obs.read_outputs(prob)) is None
+    except Exception as e:  # noqa
+        info["exc"] = type(e).__name__
+        info["msg"] = str(e)[:200]
+    return info
+
+
 def _bad_even_num_y_crm():
     from openaerostruct.geometry.utils import generate_mesh
 
@@ -386,12 +432,17 @@ ERROR_TABLE = {
     "unknown_surface_dict_key_second_problem": (_warn_surface_key_second_problem, "WARN", "colour"),
     "unknown_key_added_to_reused_dict": (_warn_key_added_to_reused_dict, "WARN", "colour"),
     "unknown_mesh_dict_key_second_call": (_warn_mesh_key_twice, "WARN", "num_z"),
+    "degenerate_coplanar_tail_at_alpha_0": (_degenerate_coplanar_tail_alpha0, "FINITE_OR_ERROR", None),
 }
 
 
 def judge_bad_setup(name, info):
     """Return None if the malformed set-up was handled as the property demands, else a description."""
     fn, exc, warn = ERROR_TABLE[name]
+    if exc == "FINITE_OR_ERROR":
+        if info["produced_numbers"] and not info.get("finite"):
+            return "returned normally with non-finite outputs (no error raised)"
+        return None
     if exc == "WARN":
         if not any(warn in w for w in info["warnings"]):
             return "no RuntimeWarning naming the unknown key %r (stage=%s exc=%s)" % (warn, info["stage"], info["exc"])
@@ -444,6 +495,8 @@ def _gen(seed, tier, opts):
                 spec["ny"] = rng.choice([5, 7])
                 spec["nx"] = rng.choice([2, 2, 3])
         spec["mode"] = rng.choice(["fwd", "rev"])
+        if "surf_opts" not in spec and spec["zoo"] in ("Z1", "Z2", "Z3", "Z4", "Z8", "Z9", "Z10", "Z11", "Z12", "Z13", "Z15") and rng.random() < 0.3:
+            spec["surf_opts"] = dict(rng.choice(zoo.SURF_OPT_CHOICES))
         model = zoo.build(spec)
         npts = rng.randint(1, 3)
         points = []
